@@ -106,7 +106,11 @@ KeyLess(a, b, j) == IF j > Len(a) \/ j > Len(b) THEN FALSE
                     ELSE IF a[j] = b[j] THEN KeyLess(a, b, j + 1) ELSE TupLess(a[j], b[j], 1)
 
 \* equal keys only arise for the two forms of the one-segment route "/?" (both match "/"): short form first
-Before(kw, w, kv, v) == KeyLess(kw, kv, 1) \/ (kw = kv /\ w.short /\ ~v.short)
+\* (a last tie-break by registration index keeps the choice total even when the code under test accepted a
+\* registration that layer P calls ill-formed - that acceptance has already been judged on its own)
+Before(kw, w, kv, v) == \/ KeyLess(kw, kv, 1)
+                        \/ (kw = kv /\ w.short /\ ~v.short)
+                        \/ (kw = kv /\ w.short = v.short /\ w.reg < v.reg)
 \* witnesses: [reg, short, c]
 WitnessesOf(H, i, p, orc) ==
   LET r == H[i].r IN
